@@ -227,14 +227,25 @@ func (fr *frame) havocAll(st *State) {
 			}
 		}
 	}
+	olds := map[string]Term{}
 	for k, v := range st.heap {
 		if strings.HasPrefix(k, "VIS$") || strings.HasPrefix(k, "SPOS$") {
 			continue
 		}
+		olds[k] = v
 		st.heap[k] = fc.fresh(k+"_h", v.Sort)
 	}
 	for _, kp := range keep {
 		fc.fact(eq(sel(st.heap[kp.name].S, kp.ref), kp.val))
+	}
+	// write-once arrays keep their values at the objects that existed before the call
+	if al.S != "" {
+		for k, old := range olds {
+			if fc.e.writeOnce(k) && strings.HasPrefix(old.Sort, "(Array Int ") {
+				nw := st.heap[k]
+				fc.fact(fmt.Sprintf("(forall ((r Int)) (! (=> (select %s r) (= (select %s r) (select %s r))) :pattern ((select %s r))))", al.S, nw.S, old.S, nw.S))
+			}
+		}
 	}
 	if al.S != "" {
 		nw := st.heap["Alloc"]
